@@ -27,14 +27,20 @@ func (p *PgSQLDataEncoderProcessor) ID() string {
 
 // OnColumn encode binary value to text and back. Should be before and after tokenizer processor
 func (p *PgSQLDataEncoderProcessor) OnColumn(ctx context.Context, data []byte) (context.Context, []byte, error) {
-	if len(data) == 0 {
-		return ctx, data, nil
-	}
-
 	columnSetting, ok := encryptor.EncryptionSettingFromContext(ctx)
 	if !ok {
 		// for case when data encrypted with acrastructs on app's side and used without any encryption setting
 		columnSetting = &config.BasicColumnEncryptionSetting{}
+	}
+	if len(data) == 0 {
+		// a value that decoded to nothing (the text form "\x") and was not decrypted goes back to the client
+		// in the form the database sent it, like any other value that was decoded only to look for a container
+		if _, hasEncoder := type_awareness.GetPostgreSQLDataTypeIDEncoders()[columnSetting.GetDBDataTypeID()]; !hasEncoder && !base.IsDecryptedFromContext(ctx) {
+			if encodedValue, ok := base.GetEncodedValueFromContext(ctx); ok {
+				return ctx, encodedValue, nil
+			}
+		}
+		return ctx, data, nil
 	}
 	logger := logging.GetLoggerFromContext(ctx).WithField("column", columnSetting.ColumnName()).WithField("decrypted", base.IsDecryptedFromContext(ctx))
 	columnInfo, ok := base.ColumnInfoFromContext(ctx)
